@@ -93,6 +93,8 @@ pub struct Srv {
     pub stratum: u8,
     /// real servers only: how an NTS request is treated [serve, authenticated RATE, authenticated DENY, NTS NAK]
     pub nts_weights: [u32; 4],
+    /// largest poll exponent the byzantine responder asks for
+    pub max_poll_request: i8,
 }
 
 fn ticks(ns: u64) -> u64 {
@@ -146,6 +148,7 @@ impl Srv {
             prev_ident: vec![None; nsrc],
             stratum: 1,
             nts_weights: [1, 0, 0, 0],
+            max_poll_request: i8::MAX,
         }
     }
 
@@ -166,6 +169,7 @@ impl Srv {
             prev_ident: vec![None; nsrc],
             stratum: 2,
             nts_weights: [1, 0, 0, 0],
+            max_poll_request: i8::MAX,
         }
     }
 
@@ -456,6 +460,7 @@ impl Srv {
                         _ => [31i8, 24, -128, -1][choose("byz.pollreq.edge", 4) as usize],
                     }
                 };
+                a.poll = a.poll.min(self.max_poll_request);
                 (a, "poll-request", true)
             }
             K_COMBO_V5 => {
